@@ -10,6 +10,9 @@ CONSTANTS
   QCap = 1
   Gating = TRUE
   QfRet = FALSE
+  Echo = "xml10"
+  PName = "exact"
+  Deep = "caught"
   LexG = "full"
 INVARIANT InvExactlyOneResponse
 CHECK_DEADLOCK FALSE
